@@ -11,7 +11,9 @@ CHECK = {'rule': 'rapid-generated programs of Set/SetAll calls (0-6 variables, ~
                  'names with a meaning for the shell or the oracle (PATH, HOME, PWD, IFS, LC_*, PS1...) are never configured',
                  'plain identifier = [A-Za-z_][A-Za-z0-9_]*; names of letters/underscores starting with a letter must be accepted (doc comment of '
                  'Set/SetAll); identifiers outside the documented rule may be accepted or rejected',
-                 'values never contain NUL; equality is up to trailing newlines',
+                 'values never contain NUL; equality is up to trailing newlines on both sides (a builder may strip or preserve them)',
+                 'the open finding C18-dash-delimiter-prefix-highbyte is recognised by its cause relative to the here-document terminator actually read from the '
+                 'script: such a variable is counted as excluded and not judged for verbatim/exported while the finding is open',
                  'the SSH key pair of the environment is left empty (the statement speaks about environment variables only)'],
  'essential_labels': {'all': ['builder-container',
                               'builder-ssh',
@@ -25,7 +27,7 @@ CHECK = {'rule': 'rapid-generated programs of Set/SetAll calls (0-6 variables, ~
                               'value-high-byte',
                               'name-not-identifier',
                               'setall',
-                              'replay-heredoc-delimiter-extracted',
+                              'replay-fence-token-extracted',
                               'replay-own-delimiter',
                               'replay-other-delimiter',
                               'replay-same-environment-object',
